@@ -539,6 +539,16 @@ func propTable() map[string]*PropSpec {
 				q = append(q, c)
 			}
 		}
+		// PREPAREs whose header bytes are padded (signed over the canonical encoding); storage order forward and reversed
+		for _, rev := range []bool{false, true} {
+			pd := rc("C09_Vote/me=2/weights=0/second_view=0/padded_prepare=1", ".", "C09_Vote", map[string]int{"me": 2, "weights": 0, "second_view": 0, "padded_prepare": 1})
+			if rev {
+				pd.Name += "/maps=reversed"
+				pd.MapReverse = true
+			}
+			q = append(q, pd)
+			th = append(th, pd)
+		}
 		// a member floods the node with PREPAREs for 40 different later views before the timeout
 		fl := rc("C09_Vote/me=2/weights=0/second_view=0/flood=40", ".", "C09_Vote", map[string]int{"me": 2, "weights": 0, "second_view": 0, "flood": 40})
 		q = append(q, fl)
